@@ -247,7 +247,7 @@ func Catalogue() []Adapter {
 	out = append(out, dhcpPoolAdapter(G4_29, 0), dhcpPoolAdapter(G4_29hi, 0), dhcpPoolAdapter(G4_28, 3))
 	out = append(out, v6AddrPoolAdapter(G6_125), v6PrefixPoolAdapter(G6_61), v6PrefixPoolAdapter(G6_57))
 	out = append(out, pppoePoolAdapter(G4_29), pppoePoolAdapter(G4_29hi))
-	out = append(out, peerPoolAdapter(G4_29), peerPoolAdapter(G4_29hi))
+	out = append(out, peerPoolAdapter(G4_29), peerPoolAdapter(G4_29hi), peerPoolFailoverAdapter(G4_29))
 	out = append(out, nexusAdapter(G4_29, 3, defaultSubID), nexusAdapter(G4_30, 3, defaultSubID))
 	return out
 }
